@@ -80,6 +80,12 @@ Holds(p) ==
     [] p = "C06" -> C06
     [] p = "C08" -> C08
     [] p = "C14" -> C14
+    [] p = "C16" -> C16
+    [] p = "C12" -> C12
+    [] p = "C10" -> C01 /\ C02 /\ C03 /\ C04 /\ C05 /\ C06
+    [] p = "C11" -> C01 /\ C02 /\ C05 /\ C11x
+    [] p = "C13" -> C13
+    [] p = "C13x" -> C13x
     [] OTHER -> TRUE
 
 \* what the public API reported through every held handle at the end of a top-level call
@@ -111,7 +117,7 @@ MonStep ==
                  tg == IF ln.op = "DropRoot" THEN ln.a ELSE ln.b
                  x1 == IF ln.op \in DropOps
                        THEN (IF ln.depth = 0 THEN DropObs(x0, g1, tg)
-                             ELSE [x0 EXCEPT !.must = @ \cup Demand(g1, x0, tg)])
+                             ELSE [x0 EXCEPT !.must = @ \cup Demand(g1, x0, tg), !.dcset = @ \cup DCSet(g1, x0, tg)])
                        ELSE x0
              IN /\ heap' = HeapOf(ln.obs)
                 /\ led' = g1
@@ -144,12 +150,18 @@ MonStep ==
              /\ ob' = [ObsInto(ob, ln.obs) EXCEPT !.dlog = Append(@, ln.a)]
              /\ ctl' = [stack |-> UserFrame(ln.a), mode |-> "run"]
              /\ sn' = sn
+          [] ln.k = "abort" ->
+             /\ heap' = HeapOf(ln.obs) /\ led' = led
+             /\ ob' = [ObsInto(ob, ln.obs) EXCEPT !.flags = @ \cup {"C11"}]
+             /\ ctl' = [stack |-> LibFrame, mode |-> "aborted"]
+             /\ sn' = sn
           [] ln.k = "hdrop" ->
              /\ heap' = HeapOf(ln.obs)
              /\ led' = IF ln.kind = "S" THEN [led EXCEPT !.valS[ln.a][ln.b] = @ - 1]
                        ELSE [led EXCEPT !.valW[ln.a][ln.b] = @ - 1]
              /\ ob' = IF ln.kind = "S"
-                      THEN [ObsInto(ob, ln.obs) EXCEPT !.must = @ \cup Demand(led', ob, ln.b)]
+                      THEN [ObsInto(ob, ln.obs) EXCEPT !.must = @ \cup Demand(led', ob, ln.b),
+                                                        !.dcset = @ \cup DCSet(led', ob, ln.b)]
                       ELSE ObsInto(ob, ln.obs)
              /\ ctl' = [stack |-> LibFrame, mode |-> "run"]
              /\ sn' = sn
@@ -182,7 +194,8 @@ HeapMatches(h, x, obs) ==
 \* micro-steps that leave no line in the trace
 Silent ==
   \/ StepDrop \/ StepOrphan \/ StepBust \/ StepMark \/ StepCycleDestroy \/ StepRelease
-  \/ StepUninit \/ StepPostValue
+  \/ StepUninit \/ StepPostValue \/ StepUnwindSkip
+  \/ /\ StepValuePanic /\ ctl'.mode = "run"                   \* the scripted panic itself
   \/ /\ StepValueScript /\ ctl'.stack = ScriptBase            \* no script / script skipped
   \/ /\ StepValueFields /\ Len(ctl'.stack) < Len(Stack)       \* nothing left to drop: return
 
@@ -201,11 +214,17 @@ ConfStep ==
                    /\ AtTop
                    /\ HeapMatches(heap, ob, ln.obs)
                    /\ CallOp(ln.op, ln.a, ln.b, ln.d, TRUE, <<>>)
+                   /\ ln.op = "MakeMut" /\ ob'.ub = {} /\ ctl'.mode = "run" => ob'.call.b = ln.b
                 [] ln.k = "call" /\ ln.depth > 0 ->
                    /\ AtDtorPoint
                    /\ LET c == ScriptCall(led.dtor[Top.o]) IN c.op = ln.op /\ c.a = ln.a /\ c.b = ln.b
                    /\ ScriptOp(led.dtor[Top.o])
-                [] ln.k = "ret" ->
+                [] ln.k = "ret" /\ ln.ret = "abort" ->
+                   /\ UNCHANGED vars
+                   /\ ctl.mode = "aborted" /\ ob.ret = "abort"
+                [] ln.k = "abort" ->
+                   /\ StepValuePanic /\ ctl'.mode = "aborted"
+                [] ln.k = "ret" /\ ln.ret # "abort" ->
                    /\ UNCHANGED vars
                    /\ IF ln.depth = 0 THEN Quiescent
                       ELSE Stack # <<>> /\ Top.pc = "value" /\ Top.ph = "fields"
@@ -222,12 +241,18 @@ ConfStep ==
                                        ELSE led'.valW[ln.a][ln.b] = led.valW[ln.a][ln.b] - 1
                    /\ HeapMatches(heap, ob, ln.obs)
 
-ConfInit == Init /\ l = 1 /\ sn = -1 /\ viol = {} /\ TLCSet(1, 1)
+ConfInit == Init /\ l = 1 /\ sn = -1 /\ viol = {} /\ TLCSet(1, 1) /\ TLCSet(2, "init")
 ConfNext == ConfStep /\ UNCHANGED viol
 \* remember the furthest line reached (needs -workers 1)
-ConfProgress == TLCSet(1, IF l > TLCGet(1) THEN l ELSE TLCGet(1))
+ConfProgress ==
+  IF l >= TLCGet(1)
+  THEN TLCSet(1, l) /\ TLCSet(2, [heap |-> heap, nd |-> ob.nd, nf |-> ob.nf, ub |-> ob.ub, ret |-> ob.ret,
+                                   stack |-> [i \in 1..Len(Stack) |-> <<Stack[i].pc, Stack[i].o, Stack[i].ph>>],
+                                   mode |-> ctl.mode])
+  ELSE TRUE
 ConfAccepted ==
   \/ TLCGet(1) = Len(Rec) + 1
   \/ /\ PrintT(<<"UNMATCHED", TLCGet(1), ToJson(Rec[TLCGet(1)])>>)
+     /\ PrintT(<<"SPEC-STATE", TLCGet(2)>>)
      /\ FALSE
 =============================================================================
